@@ -226,10 +226,15 @@ def debug_tree(text=b'dbg'):
     return S([Raw(bytes([MSG_DEBUG]), 'type'), Raw(b'\x00', 'always'), L(text, 'msg'), L(b'', 'lang')], 'debug')
 
 
+EXTRA_PADDING = 0      # set per World (vnet.set_world): peers frame their packets with more than the minimum padding
+
+
 def packet_tree(payload_tree, block=8):
     payload = serialize(payload_tree)
     padlen = -(len(payload) + 5) % block
     if padlen < 4:
+        padlen += block
+    while EXTRA_PADDING and padlen + block <= min(255, 4 + EXTRA_PADDING + block - 1) and padlen < EXTRA_PADDING:
         padlen += block
     return S([L(S([Raw(bytes([padlen]), 'padlen'), payload_tree, Raw(b'\x00' * padlen, 'padding')]), 'packet_length')],
              'packet')
